@@ -1,4 +1,4 @@
-import ActixNet.Lemmas.SrvLog
+import ActixNet.Lemmas.SrvListen
 /-!
 # C05 — pause, resume and accept-error back-off never strand a listener
 
@@ -201,6 +201,36 @@ theorem pause_clears_deadlines (ls : List Nat) : ∀ (s : St) (l : Nat), l ∈ l
           split <;> simp [deregister, upd, hlb]
       rw [this]
       split <;> simp [deregister, upd]
+
+/-! ### Whole-history statements (every operation sequence, every schedule, faults included) -/
+
+/-- **while the server is paused no listener is in the poll set** — in every reachable state.  (This
+is the invariant that would not prove on the unchanged tree: `Resume` kept a stale back-off deadline
+and the next `Pause` skipped that listener; see KNOWN_FINDINGS F7.) -/
+theorem paused_means_every_listener_deregistered (cfg : Cfg) (kinds : List Kind) (ops : List Op) (l : Nat)
+    (hp : (run cfg (init cfg kinds) ops).paused = true) (hl : l < (run cfg (init cfg kinds) ops).nLst) :
+    ((run cfg (init cfg kinds) ops).lst l).registered = false :=
+  (run_linv cfg ops _ (init_linv cfg kinds)).pd hp l hl
+
+/-- a listener in accept-error back-off is out of the poll set, in every reachable state -/
+theorem backoff_listener_is_deregistered (cfg : Cfg) (kinds : List Kind) (ops : List Op) (l d : Nat)
+    (hd : ((run cfg (init cfg kinds) ops).lst l).deadline = some d) :
+    ((run cfg (init cfg kinds) ops).lst l).registered = false :=
+  (run_linv cfg ops _ (init_linv cfg kinds)).dd l d hd
+
+/-- **once a pause has taken effect no connection is dispatched until resume**: in every reachable
+paused state mio can report no listener event, and the iteration (waker event only) dispatches
+nothing and ends paused as long as no `Resume` is queued or issued during it — whatever else happens
+meanwhile (worker wake-ups, replacement handles, more pauses, back-off expiry, client connects). -/
+theorem paused_no_dispatch (cfg : Cfg) (kinds : List Kind) (ops : List Op) (sched : List (List EnvAct))
+    (hp : (run cfg (init cfg kinds) ops).paused = true)
+    (hwq : ∀ i ∈ (run cfg (init cfg kinds) ops).wq, i ≠ Interest.resume)
+    (hs : ∀ ch ∈ sched, ∀ a ∈ ch, a ≠ EnvAct.cmd .resume) :
+    readyListeners (run cfg (init cfg kinds) ops) = [] ∧
+    (poll cfg (run cfg (init cfg kinds) ops) [.waker] sched).dispatched = (run cfg (init cfg kinds) ops).dispatched ∧
+    (poll cfg (run cfg (init cfg kinds) ops) [.waker] sched).paused = true :=
+  ⟨paused_no_listener_events _ (run_linv cfg ops _ (init_linv cfg kinds)) hp,
+   paused_poll_no_dispatch cfg _ sched hp hwq hs⟩
 
 /-! ### Non-vacuity: pause / connect during pause / resume on a Unix domain listener -/
 def demoCfg : Cfg := { limit := 2, nIdx := 1 }
